@@ -109,9 +109,9 @@ CHECKS = {
         ref='5 C15'),
     'C16': dict(
         technique='runtime monitoring: reference-model monitor over Instance::eval() at random session prefixes (ASan+UBSan build)',
-        text='Exploration: exec token lists (opcode names, decimals, hex pushes, invalid tokens) are issued at the start, middle, last operation and end of model-steered sessions; the state after exec is compared with the reference '
-             'interpreter executing the compiled operations on the same pre-state (stack, alt stack, condition stack, op count), the error code if one fails (and that a script error is not reported as an exception), position/remaining script must be untouched, and the rest of the session is stepped and compared; 30% of the sessions issue another exec first.',
-        note='trusted: ref/script.py; the token grammar as documented by exec; tapscript signature checks inside exec are judged for their budget accounting; OP_CODESEPARATOR and real signature verification inside exec are left to C15',
+        text='Exploration: exec token lists written in the grammar of scripts (opcode names, decimals up to +-2^63, hex with/without 0x incl. one-byte values, [..], inline expressions incl. throwing ones, invalid tokens) are issued at the start, middle, last operation and end of model-steered sessions; the state after exec is compared with the reference '
+             'interpreter executing the compiled operations on the same pre-state (stack, alt stack, condition stack, op count), the error code if one fails (and that a script error is not reported as an exception), position/remaining script must be untouched; after a failing exec the state must be the one before the failing operation (not counted); in both cases the rest of the session is stepped and compared; 30% of the sessions issue another exec first.',
+        note='trusted: ref/script.py and ref/asm.py (the token grammar, shared with C07); tapscript signature checks inside exec are judged for their budget accounting; OP_CODESEPARATOR and real signature verification inside exec are left to C15',
         ref='5 C16'),
     'C17': dict(
         technique='runtime monitoring: reference-function monitor over one-op Instance::step() traces, exhaustive over a boundary operand pool (ASan+UBSan build)',
